@@ -30,7 +30,7 @@ Lemma pstep_opt_R : forall h n, num_ok n -> positive_x (n_val n) ->
 Proof.
   intros h n Hn Hp. unfold pstep at 2. cbn [flags_of tok_of]. rewrite classify_opkw. cbn [on_tok].
   unfold pstep. cbn [flags_of tok_of]. rewrite (classify_double F_NONE _ true (n_val n)) by (auto; apply Hn).
-  cbn [on_tok]. unfold positive_x in Hp. rewrite Hp. reflexivity.
+  cbn [on_tok]. unfold positive_x in Hp. rewrite Hp. cbn [negb]. reflexivity.
 Qed.
 
 Lemma opts_run_v1 : forall fs h, Forall ofield_ok fs ->
